@@ -2,6 +2,7 @@ import Drv.C05
 import Drv.C14
 import Drv.C17
 import Drv.C20
+import Drv.C19
 /- Line protocol driver: one command per line in, one line out. -/
 open Drv
 
@@ -14,6 +15,7 @@ def dispatch (line : String) : String :=
   | "c17.enc" :: args => C17.cmdEnc args
   | "c17.dec" :: args => C17.cmdDec args
   | "c20" :: args => C20.cmd args
+  | "c19" :: args => C19.cmd args
   | "ping" :: _ => "pong"
   | _ => "bad-op"
 
